@@ -48,8 +48,9 @@ class ZONEINFO(TZProvider):
         except ValueError:
             # ValueError: ZoneInfo keys may not be absolute paths, got: /Europe/CUSTOM
             pass
-        except OSError:
-            # IsADirectoryError for "Europe", OSError for names that are too long
+        except (OSError, RecursionError):
+            # IsADirectoryError for "Europe", OSError for names that are too long,
+            # RecursionError from the tzdata package lookup of a name with very many "/"
             pass
 
     def knows_timezone_id(self, id: str) -> bool:
